@@ -21,7 +21,7 @@ ASSUMPTIONS = [
 ]
 MIN_OBLIGATIONS = 60
 
-MUTATORS = {"__init__", "__post_init__", "__setitem__", "fill", "_set_data_range", "_flatten_myself", "count",
+MUTATORS = {"__init__", "__post_init__", "__setitem__", "fill", "_set_data_range", "count",
             "__iadd__", "_fill_values", "set_dtype", "set_backend", "_implicit_format_conversion", "__new__"}
 
 CLASSES = ["raggedarray.RaggedArray", "raggedshape.RaggedShape", "raggedshape.RaggedView", "raggedshape.RaggedView2",
@@ -48,8 +48,11 @@ ALLOWED = [
 def entries(tk):
     p = tk.ctx.program
     out, seen = [], set()
+    helpers = tk.ctor_helpers()
     for cq in CLASSES:
         for m in public_methods(p.cls(cq), exclude=MUTATORS):
+            if m.qual in helpers:
+                continue            # part of construction (called from __init__ only): not a read operation
             if m.qual not in seen:
                 seen.add(m.qual)
                 out.append(m)
@@ -64,7 +67,17 @@ def entries(tk):
 def check(ctx, tier):
     tk = Toolkit(ctx)
     es = entries(tk)
-    tk.purity("C10/EF1", es, "read-only operation", allowed=ALLOWED)
+    # the stores of the materialisation step (the function that replaces buffer, geometry and flag together, wherever it
+    # lives and whatever it is called) get a semantic key: they are the recorded finding F17a
+    from ..coherence import Coherence as _Coh
+    _coh = ctx.cached("coherence", lambda: _Coh(tk))
+    core = {f.qual for f in _coh.ts.core_materialisers()}
+
+    def site_key(s):
+        if s.func.qual in core and s.kind == "attrstore" and s.attr in ("__data", "_shape", "is_contigous"):
+            return "materialise-step:" + s.attr
+        return None
+    tk.purity("C10/EF1", es, "read-only operation", allowed=ALLOWED, site_key=site_key)
 
     # EF4: read APIs returning RaggedArray objects must not share the receiver's live buffer
     def allow_getitem(tm, fr):
